@@ -408,6 +408,73 @@ def scan_call_sites():
     return uniq
 
 
+NORMALIZE_TARGETS_LOOP = [
+    "if raw_target == '':\n    raise ToolError('A target cannot be an empty string.')",
+    "is_dir_target = raw_target.endswith(os.sep)",
+    "target_abs = Path(raw_target).absolute()",
+    "target_rel = target_abs.relpath(stepup_root).normpath()",
+    "if is_dir_target:\n    target_dirs.append(target_rel / '')\nelse:\n    targets.append(target_rel)",
+]
+# calls that change the working directory of the process
+_CHDIR_ATTRS = {"cd", "chdir"}
+KNOWN_TARGET_CALLERS = {"tui.py:_async_build"}
+
+
+def target_call_site_facts():
+    """`stepup build TARGET...`: tui._normalize_targets resolves every raw target against the CURRENT working
+    directory (`Path(raw).absolute()`), so it designates the file the user named only while the process is still
+    in the directory the command was typed in.  Every call site in stepup/core is listed with one boolean:
+    the call precedes (in source order within its function) every statement that changes the working directory
+    (`<x>.cd()`, `os.chdir(...)`, `contextlib.chdir(...)`).  The boolean is GENERATED (not checked here): a call
+    moved behind the `cd` makes it false and C20_cli_target_designates_same stops holding.  Fail closed: a use of
+    _normalize_targets other than a direct call, a caller that is not known, the per-target statements of
+    _normalize_targets changed."""
+    from .astutil import REPO
+    tui = parse_module(f"{CORE}/tui.py")
+    fn = find_function(tui, "_normalize_targets")
+    if ast.unparse(fn.args) != "raw_targets: list[str], stepup_root: Path":
+        raise TranslatorError(f"tui._normalize_targets: signature changed: {ast.unparse(fn.args)}")
+    loops = [n for n in body_without_docstring(fn) if isinstance(n, ast.For)]
+    if len(loops) != 1 or ast.unparse(loops[0].target) != "raw_target" or ast.unparse(loops[0].iter) != "raw_targets":
+        raise TranslatorError("tui._normalize_targets: expected one loop over raw_targets")
+    got = [ast.unparse(st) for st in loops[0].body]
+    if got != NORMALIZE_TARGETS_LOOP:
+        raise TranslatorError(f"tui._normalize_targets: per-target statements changed: {got}")
+    sites = []
+    for path in sorted((REPO / CORE).glob("*.py")):
+        rel = f"{CORE}/{path.name}"
+        tree = tui if path.name == "tui.py" else parse_module(rel)
+        direct = set()
+        for qual, f2 in functions_with_parents(tree):
+            inner = [f3 for q, f3 in functions_with_parents(tree) if q.startswith(qual + ".")]
+            skip = {id(n) for f3 in inner for n in ast.walk(f3)}
+            calls, chdirs = [], []
+            for node in ast.walk(f2):
+                if id(node) in skip or not isinstance(node, ast.Call):
+                    continue
+                if isinstance(node.func, ast.Name) and node.func.id == "_normalize_targets":
+                    calls.append(node)
+                    direct.add(id(node.func))
+                elif isinstance(node.func, ast.Attribute) and node.func.attr in _CHDIR_ATTRS:
+                    chdirs.append(node)
+            for c in calls:
+                name = f"{path.name}:{qual}"
+                if name not in KNOWN_TARGET_CALLERS:
+                    raise TranslatorError(f"{rel}:{c.lineno}: new caller of _normalize_targets: {qual}")
+                if [ast.unparse(a) for a in c.args] != ["args.targets", "stepup_root"] or c.keywords:
+                    raise TranslatorError(f"{rel}:{c.lineno}: _normalize_targets called with {ast.unparse(c)}")
+                before = all((c.lineno, c.col_offset) < (d.lineno, d.col_offset) for d in chdirs)
+                sites.append((name, before, [ast.unparse(d) for d in chdirs]))
+        for node in ast.walk(tree):
+            if isinstance(node, ast.Name) and node.id == "_normalize_targets" and id(node) not in direct:
+                raise TranslatorError(f"{rel}:{node.lineno}: _normalize_targets is used other than by a direct call")
+            if isinstance(node, ast.Attribute) and node.attr == "_normalize_targets":
+                raise TranslatorError(f"{rel}:{node.lineno}: _normalize_targets is used through an attribute")
+    if not sites:
+        raise TranslatorError("no call site of tui._normalize_targets found")
+    return sites
+
+
 def generate():
     rel = f"{CORE}/path.py"
     tree = parse_module(rel)
@@ -443,6 +510,7 @@ def generate():
     infos["_keep_affixes"] = kinfo
     etext, exprs = translate_exec_env()
     sites = scan_call_sites()
+    tsites = target_call_site_facts()
     lines = [
         "(* GENERATED by translator/gen_path.py from /repo -- do not edit *)",
         "From Coq Require Import List NArith Bool.",
@@ -465,6 +533,13 @@ def generate():
         "Definition call_sites : list (str * call_shape) := [",
         ";\n".join(f"  ({coq_str(n)}, {shape}) (* {n} -> {callee} *)" for n, callee, shape in sites),
         "].",
+        "(* stepup/core/tui.py: call sites of _normalize_targets (which resolves raw targets against os.getcwd());",
+        "   true = the call precedes every working-directory change of its function *)",
+        "Definition target_call_sites : list (str * bool) := [",
+        ";\n".join(f"  ({coq_str(n)}, {'true' if b else 'false'}) (* {n}; cwd changes: {', '.join(ch) or 'none'} *)"
+                    for n, b, ch in tsites),
+        "].",
+        "Definition targets_normalized_in_user_cwd : bool := forallb (fun s => snd s) target_call_sites.",
         "",
     ]
     facts = {"functions": {k: {kk: vv for kk, vv in v.items()} for k, v in infos.items()},
